@@ -8,7 +8,8 @@ import sys
 from concurrent.futures import ThreadPoolExecutor
 
 VERIF = os.path.dirname(os.path.dirname(os.path.abspath(__file__)))
-ids = sorted(d for d in os.listdir(os.path.join(VERIF, "seeded")) if os.path.isdir(os.path.join(VERIF, "seeded", d)))
+SUB = os.environ.get("MATRIX_DIR", "seeded")  # "seeded" (property-breaking changes) or "harmless" (behaviour-preserving refactorings)
+ids = sorted(d for d in os.listdir(os.path.join(VERIF, SUB)) if os.path.isdir(os.path.join(VERIF, SUB, d)))
 checks = [f"C{i:02d}" for i in range(1, 21)]
 ROOT = "/tmp/mx"
 os.makedirs(ROOT, exist_ok=True)
@@ -22,7 +23,7 @@ def prep(mid):
     wt = f"{ROOT}/{mid}"
     if not os.path.exists(wt):
         sh(f"git -C /repo worktree add -q --detach {wt} HEAD")
-        r = sh(f"git apply {VERIF}/seeded/{mid}/patch.diff", cwd=wt)
+        r = sh(f"git apply {VERIF}/{SUB}/{mid}/patch.diff", cwd=wt)
         assert r.returncode == 0, r.stderr
     return wt
 
@@ -53,7 +54,7 @@ if __name__ == "__main__":
     with ThreadPoolExecutor(max_workers=10) as ex:
         for mid, c, kind, first in ex.map(one, jobs):
             out.setdefault(mid, {})[c] = kind if kind in ("ok",) else [kind, first]
-    path = os.path.join(VERIF, "seeded", "MATRIX.json")
+    path = os.path.join(VERIF, SUB, "MATRIX.json")
     old = json.load(open(path)) if os.path.exists(path) else {}
     old.update(out)
     json.dump(old, open(path, "w"), indent=1)
